@@ -543,6 +543,23 @@ def sym_method(I, recv, name, args, kwargs):
             if cn == 0:
                 return False
             raise Unsupported("isdigit on a string of unknown length")
+        if name == "isdecimal" and k == "str" and not args:
+            # str.isdecimal(): every character is a Unicode decimal digit (category Nd) and the string is not empty.
+            # Uninterpreted beyond ASCII: an ASCII character is decimal iff it is 0-9.
+            pred = z3.Function("str_isdecimal", S.SeqI, S.BoolS)
+            r = pred(e)
+            I.path.assume(z3.Implies(z3.Length(e) == 0, z3.Not(r)))
+            I.path.assume(z3.Implies(z3.Length(e) == 1, z3.And(
+                z3.Implies(z3.And(e[0] >= 48, e[0] <= 57), r),
+                z3.Implies(z3.And(e[0] < 128, z3.Or(e[0] < 48, e[0] > 57)), z3.Not(r)))))
+            return SBool(r)
+        if name == "lower" and k == "str" and not args:
+            # str.lower(): uninterpreted (full Unicode case mapping); for one ASCII character it is ASCII lower-casing
+            low = z3.Function("str_lower", S.SeqI, S.SeqI)
+            r = low(e)
+            I.path.assume(z3.Implies(z3.And(z3.Length(e) == 1, e[0] < 128), z3.And(
+                z3.Length(r) == 1, r[0] == z3.If(z3.And(e[0] >= 65, e[0] <= 90), e[0] + 32, e[0]))))
+            return SBytes(r, "str")
         if name in ("isalnum", "isalpha", "isascii", "isupper", "islower", "isspace") and not args:
             pred = z3.Function("bytes_" + name, S.SeqI, S.BoolS)
             return SBool(pred(e))  # a deterministic predicate of the content (A-lib); nothing else is assumed
@@ -817,6 +834,17 @@ def m_int(I, args, kwargs):
     if M.is_bytes_like(v) and len(args) == 1:
         e = M.as_seq(I, v)
         n = I.path.infer_int(z3.Length(e))
+        if M.kind_of(v) == "str":
+            isdec = z3.Function("str_isdecimal", S.SeqI, S.BoolS)(e)
+            if I.path.feasible(isdec) and not I.path.feasible(z3.Not(isdec)):
+                # int() of a string known to be all decimal digits (Unicode Nd included): its value, an uninterpreted
+                # non-negative function of the text; one ASCII digit has its obvious value; very long texts are refused
+                val = z3.Function("str_decimal_value", S.SeqI, S.IntS)(e)
+                I.path.assume(val >= 0)
+                I.path.assume(z3.Implies(z3.Length(e) == 1, z3.And(val <= 9, z3.Implies(z3.And(e[0] >= 48, e[0] <= 57), val == e[0] - 48))))
+                if n is None and I.path.branch(z3.Length(e) > 4300, note="int()-digit-limit"):
+                    I.raise_py(ValueError, "Exceeds the limit for integer string conversion")
+                return SInt(val)
         if n is None or n == 0 or n > 6:
             raise Unsupported("int() of text of unknown length")
         digs = [e[k] for k in range(n)]
